@@ -10,6 +10,10 @@ CLAIMS = {
   "Every function of filter_optimizer.go carries a contract stating that the key region of its result covers every key on which the predicate can hold (ghost key, documented operator semantics as oracle); the obligations are generated from the go/ssa form of the working tree on every run and discharged by SMT for all predicate trees, literals and keys, without bound.",
   TRUST + "The sem_* oracle axioms are transcribed from the README. The link from scan type to the keys a plan actually reads is the subject of C18/C01, not of this check.",
   "DESIGN.md section 5, C02"),
+ "C05": ("proof",
+  "Row mode: an alias reference is proved to evaluate exactly as its defining expression for every pair, cache content and cache switch; the per-row cache is proved invisible through a coherence invariant (every entry is the value of its alias on the current pair) that Expression.Execute requires and preserves, that the four row-mode scans establish for every pair before filtering it (this failed on the pinned tree: defect D5, repaired) and hand over with the returned pair, and that ProjectionPlan uses to return one column per field, in order, each the field's value on that pair.",
+  TRUST + "Batch mode (chunk caches) and aliases in ORDER BY / GROUP BY are not covered. That every reference points at the select field of its name (A-ALIAS) and that evaluation is a function of expression and pair (A-EVAL) are assumptions.",
+  "DESIGN.md section 5, C05"),
  "C08": ("proof",
   "LimitPlan and FinalLimitPlan (Init, Next, Batch) are proved, for every offset, count, result size, symbolic batch size and every split of the child's output into batches, to return exactly the next rows Start+current.. of the child's ghost output sequence, to stop at Count or at the child's end, and to maintain the object invariant that makes the per-call statement compose over calls.",
   TRUST + "The child is represented by the Plan/FinalPlan interface contract (ghost sequence, any batch split). Composition over calls is an induction argued on paper with the machine-checked object invariant as hypothesis. The limit half of AggregatePlan.Next/Batch is proved over assumed thin contracts of next()/batch(); parseLimit and buildFinalPlan wiring are not yet under contract.",
